@@ -96,7 +96,7 @@ def run_job(job):
         res['notes'] = sorted(set(ex.notes))
         # vacuity: the precondition must be satisfiable and at least one normal exit reachable
         s = z3.Solver()
-        s.set('timeout', 10000)
+        s.set('timeout', 3000)
         for a in ex.requires_pc:
             s.add(a)
         if s.check() == z3.unsat:
@@ -104,7 +104,7 @@ def run_job(job):
         reach = False
         for pc in ex.return_pcs:
             s = z3.Solver()
-            s.set('timeout', 10000)
+            s.set('timeout', 3000)
             for a in pc:
                 s.add(a)
             if s.check() != z3.unsat:
